@@ -234,11 +234,12 @@ class QuadricTensor(ProjectiveTensor, ABC):
             if self.dim > 2:
                 arr = other.array.reshape(other.shape[: -other.tensor_shape[1]] + (-1, self.dim + 1))
 
+                # a plane through the line: the first row that does not only consist of rounding noise
                 if isinstance(other, Line):
-                    i = arr.nonzero()[0][0]
+                    i = np.any(np.abs(arr) > EQ_TOL_ABS, axis=-1).argmax()
                     m = Plane(arr[i], copy=False).basis_matrix
                 else:
-                    i = np.any(arr, axis=-1).argmax(-1)
+                    i = np.any(np.abs(arr) > EQ_TOL_ABS, axis=-1).argmax(-1)
                     m = PlaneCollection(arr[(*tuple(np.indices(i.shape)), i)], copy=False).basis_matrix
                 line = other._matrix_transform(m)
                 projected_quadric = QuadricCollection.from_array(matmul(matmul(m, self.array), m, transpose_b=True))
